@@ -15,12 +15,14 @@ RULE = ("1..300 records; names of 1..5 printable non-blank ASCII characters; res
         "the boundary values {0,1,99998,99999,100000,100001,199998,199999,200000,9999999,10^7} at high weight; "
         "coordinates = integer multiples of the last written decimal spanning the field's full range (negative, "
         "maximal) plus sub-resolution offsets up to 0.4999 units; velocities on/off; titles set / unset / with "
-        "trailing newline; box unset / 3-vector / diagonal / triclinic; position format unset or (d+5,d), d=1..6; "
-        "atom count declared or filled on close; writeline / writelines / context manager. Non-trivial = >=2 records "
+        "trailing newline / with multi-byte characters; box unset / 3-vector / diagonal / triclinic; position format unset or (d+5,d), d=1..6; "
+        "atom count declared or filled on close; writeline / writelines / context manager; optionally another file of "
+        "another format / length written (and read) through the library just before, under the same or another path. Non-trivial = >=2 records "
         "and (non-default format or velocities or a number >= 99998 or a triclinic box). Distinct = sha1 of the case.")
 ASSUMPTIONS = [
     "values fit the field width (stated): positions in (-10^3, 10^4), velocities in (-10^2, 10^3) after rounding",
-    "titles are non-empty printable ASCII without line breaks",
+    "titles are non-empty, without line breaks: printable ASCII, or text with non-ASCII characters (2-, 3- and 4-byte "
+    "UTF-8) when the locale encoding is UTF-8 (the library opens files in the locale's encoding); names are ASCII",
     "numbers above 99999 may wrap to any value of at most five digits (the statement does not fix the wrap rule)",
 ]
 
@@ -72,7 +74,9 @@ def case_strategy(draw, tier="quick"):
             rec += v[3 * i:3 * i + 3].tolist()
         recs.append(rec)
     title = draw(st.one_of(st.none(),
-                           st.text(st.characters(min_codepoint=32, max_codepoint=126), min_size=1, max_size=60)))
+                           st.text(st.characters(min_codepoint=32, max_codepoint=126), min_size=1, max_size=60),
+                           st.text(st.sampled_from(list("abc t=0.5 ") + ["\u00c5", "\u00e9", "\u00b0", "\u00b5", "\u2013", "\u4e2d", "\U0001d6fc"]),
+                                   min_size=1, max_size=30).filter(lambda t: t.strip() != "")))
     if title is not None and draw(st.booleans()):
         title = title + "\n"
     bk = draw(st.sampled_from(["unset", "vector", "diagonal", "triclinic", "triclinic", "triclinic"]))
@@ -99,7 +103,10 @@ def case_strategy(draw, tier="quick"):
     return {"records": recs, "format": fmt, "vel": vel, "title": title, "box_kind": bk, "box": box,
             "declare": draw(st.booleans()),
             "api": draw(st.sampled_from(["writeline", "writelines", "with", "tuple", "strings"])),
-            "read_api": draw(st.sampled_from(["path", "path", "fileobj", "open_coordinate_file", "iterate"]))}
+            "read_api": draw(st.sampled_from(["path", "path", "fileobj", "open_coordinate_file", "iterate"])),
+            "prior": draw(st.one_of(st.none(), st.fixed_dictionaries({
+                "format": st.sampled_from([None, 1, 2, 4, 6]), "vel": st.booleans(), "n": st.integers(1, 40),
+                "same_path": st.booleans(), "read": st.booleans()})))}
 
 
 def write_with_library(case, path):
@@ -132,12 +139,41 @@ def write_with_library(case, path):
         f.close()
 
 
+def _utf8_locale():
+    import locale
+    return locale.getpreferredencoding(False).lower().replace("-", "") == "utf8"
+
+
 def check(case):
+    if case["title"] is not None and not case["title"].isascii() and not _utf8_locale():
+        # files are opened in the locale's encoding: non-ASCII titles are only meaningful under a UTF-8 locale
+        case = dict(case, title=case["title"].encode("ascii", "replace").decode("ascii"))
     path = env.fresh_path(".v2.final.gro" if len(case["records"]) % 2 else ".gro")    # dots in the name are legal
     recs = case["records"]
     d = 3 if case["format"] is None else case["format"]
     w = d + 5
     tag = "fmt:%s" % ("default" if case["format"] is None else "custom")
+    prior = case.get("prior")
+    if prior:
+        # another file (other format, velocities, length, box) went through the library just before - optionally under
+        # the very same path, which the main write then has to replace completely
+        pd = 3 if prior["format"] is None else prior["format"]
+        prec = [[7 + i, "PRI", "X%d" % (i % 9), i + 1, 1.0 * i, -2.0, 0.5] + ([0.1, 0.2, -0.3] if prior["vel"] else [])
+                for i in range(prior["n"])]
+        ppath = path if prior["same_path"] else env.fresh_path(".gro")
+        lib("write", write_with_library, {"records": prec, "format": prior["format"], "vel": prior["vel"],
+                                          "title": "prior file", "box": [[9.0, 0, 0], [1.0, 8.0, 0], [2.0, 3.0, 7.0]],
+                                          "declare": True, "api": "writeline"}, ppath)
+        if prior["read"]:
+            def rd_prior():
+                g = GroFile(ppath)
+                try:
+                    return g.readlines(), g.box_matrix
+                finally:
+                    g.close()
+            back, _ = lib("read", rd_prior)
+            if len(back) != prior["n"]:
+                raise PropertyViolation("count", "prior file: wrote %d records, read %d" % (prior["n"], len(back)))
     lib("write", write_with_library, case, path)
     with open(path, "rb") as fb:
         raw = fb.read()
@@ -211,7 +247,7 @@ def check(case):
         raise PropertyViolation("line-length", "atom lines have byte lengths %r, expected %d" % (sorted(lens), want))
     # the file is a standard .gro file: the independent reader sees the same records
     try:
-        ind = indep.parse_gro_text(raw.decode("ascii"))
+        ind = indep.parse_gro_text(raw.decode("utf-8"))
     except Exception as exc:
         raise PropertyViolation("standard-format", "independent reader rejects the written file: %r" % (exc,))
     for i, (a, b) in enumerate(zip(got, ind["records"])):
@@ -221,7 +257,9 @@ def check(case):
     return {"nontrivial": nt,
             "classes": [tag, "vel" if case["vel"] else "novel", "box:" + case["box_kind"],
                         "declared" if case["declare"] else "backfilled", "big-number" if big_number else "small-numbers",
-                        "api:" + case["api"], "read:" + case.get("read_api", "path")],
+                        "api:" + case["api"], "read:" + case.get("read_api", "path"),
+                        "title:" + ("default" if case["title"] is None else "ascii" if case["title"].isascii() else "non-ascii"),
+                        "prior:none" if not prior else "prior:same-path" if prior["same_path"] else "prior:other-path"],
             "sample": {"n": len(recs), "first": recs[:2], "format": case["format"], "title": case["title"],
                        "box": case["box"], "declare": case["declare"], "api": case["api"]}}
 
